@@ -578,6 +578,13 @@ def validateNutsId (c : Cred) : Res Unit :=
   | none => .err "validation"
   | some id => if prefixOf id != c.issuer then .err "validation" else .ok ()
 
+/-- `verifier.Verify` when the revocation store cannot be read: `IsRevoked` returns the store's error (anything but
+    ErrNotFound) and `Verify` RETURNS it — the soft-fail block further down only wraps `credentialStatus.Verify` -/
+def verifyWithStore (E : Env) (i : Bool) (w : World) (c : Cred) (readFault : Bool) : Verdict × World :=
+  match c.id with
+  | some _ => if readFault then (.err "store", w) else verify E i w c
+  | none => verify E i w c
+
 /-- `verifier.Verify` up to and including the revocation checks: the type-specific validator's id rule, then `verify` -/
 def verifyFull (E : Env) (i : Bool) (w : World) (c : Cred) (nutsType : Bool) : Verdict × World :=
   if nutsType then
@@ -589,6 +596,18 @@ def verifyFull (E : Env) (i : Bool) (w : World) (c : Cred) (nutsType : Bool) : V
     match c.id with
     | none => (.err "validation", w)
     | some _ => verify E i w c
+
+/-- `verifyFull` with the outcome of the store read -/
+def verifyFullF (E : Env) (i : Bool) (w : World) (c : Cred) (nutsType readFault : Bool) : Verdict × World :=
+  if nutsType then
+    match validateNutsId c with
+    | .ok _ => verifyWithStore E i w c readFault
+    | .err e => (.err e, w)
+    | .panic s => (.err ("panic:" ++ s), w)
+  else
+    match c.id with
+    | none => (.err "validation", w)
+    | some _ => verifyWithStore E i w c readFault
 
 /-! ## the network event that delivers a revocation (vcr/ambassador.go) -/
 
